@@ -504,6 +504,9 @@ func (e *Exec) schedule() (kind, detail, site string) {
 			cands := en
 			// ContextBound < 0: no preemption at all (the running thread continues while it can; a
 			// choice remains only when it blocks or ends and several others are enabled)
+			// ContextBound == -2: one schedule only - no preemption, and where the running thread
+			// blocks or ends the first enabled transition is taken (for histories of hundreds of steps,
+			// where even the choices at blocking points multiply beyond reach; data stays symbolic)
 			if (e.Cfg.ContextBound > 0 && last != nil && preempt >= e.Cfg.ContextBound) || (e.Cfg.ContextBound < 0 && last != nil) {
 				var same []transition
 				for _, tr := range en {
@@ -527,7 +530,9 @@ func (e *Exec) schedule() (kind, detail, site string) {
 				}
 				cands = append(a, b...)
 			}
-			k = e.Choose(len(cands), "sched")
+			if e.Cfg.ContextBound != -2 {
+				k = e.Choose(len(cands), "sched")
+			}
 			en = cands
 		}
 		tr := en[k]
